@@ -549,6 +549,16 @@ class AsyncFIXConnection:
 
         if self._connection_role == ConnectionRole.ACCEPTOR:
             assert self._connection_state == ConnectionState.LOGON_INITIAL_RECV
+            if (
+                FTag.EncryptMethod not in logon_msg
+                or FTag.HeartBtInt not in logon_msg
+            ):
+                # Logon() can't be answered, session must not stay half-established
+                await self.disconnect(
+                    ConnectionState.DISCONNECTED_BROKEN_CONN,
+                    logout_message="Logon() EncryptMethod/HeartBtInt is missing",
+                )
+                return
             if msg_seq_num >= self._session.next_num_in:
                 msg_logon = FIXMessage(FMsg.LOGON)
                 msg_logon.set(FTag.EncryptMethod, logon_msg[FTag.EncryptMethod])
@@ -836,6 +846,11 @@ class AsyncFIXConnection:
                     return
                 await self._state_set(ConnectionState.LOGON_INITIAL_RECV)
                 self._connection_role = ConnectionRole.ACCEPTOR
+            elif self._connection_state == ConnectionState.LOGON_INITIAL_RECV:
+                # Previous Logon() was not processed to the end, no session here
+                if msg.msg_type != FMsg.LOGON:
+                    await self.disconnect(ConnectionState.DISCONNECTED_BROKEN_CONN)
+                    return
             elif self._connection_state == ConnectionState.LOGON_INITIAL_SENT:
                 # Applicable only for initiator
                 if msg.msg_type != FMsg.LOGON and msg.msg_type != FMsg.LOGOUT:
